@@ -1,258 +1,93 @@
-"""Generic runner for the properties decided over slices of core expressions
-(C01–C06, C17, C18): generate cases, run the implementation, evaluate the model and the
-property oracle in Coq, classify, shrink, report."""
+"""Parts over core expressions: single slices ('s'), pairs of slices ('p'), raw fetches ('f'),
+overlapping(point) ('o')."""
 from __future__ import annotations
 
-import json
-import random
-import time
-from collections import Counter
+import copy
 
 from . import exprs as X
-from .common import (Report, TRUSTED_BASE, VERIF, check_props_file, eval_cases, eval_term,
-                     load_known, make_coq, scan_forbidden)
-
-HEADER = "From CG Require Import Harness.CoreChk.\n"
+from .common import eval_term
+from .family import Family
 
 
-class SliceFamily:
-    """One property over single slices (kind='s') or pairs of slices (kind='p').
+class ExprFamily(Family):
+    def __init__(self, prop, kind, oracle, dom_funcs, gen, n_quick, n_thorough, name=None, rule=None):
+        super().__init__(prop)
+        self.kind, self.oracle, self.dom_funcs = kind, oracle, dom_funcs
+        self.genf, self.n_quick, self.n_thorough = gen, n_quick, n_thorough
+        self.corr = {"s": "corr_slice", "p": "corr_pair", "f": "corr_fetch", "o": "corr_ov"}[kind]
+        self.case_type = {"s": "scase", "p": "pcase", "f": "fcase", "o": "ocase"}[kind]
+        self.name = name or {"s": "slices", "p": "slice-pairs", "f": "fetches", "o": "overlapping"}[kind]
+        self.rule = rule or ("random expression trees over stored leaves with endpoints in {None,0..7}; "
+                             "non-trivial = the implementation returned at least one interval")
 
-    oracle      Coq function name: case -> bool, evaluated on the implementation's output
-    dom_funcs   Coq functions whose conjunction is the domain free of known-finding signatures
-    gen         (Gen, rng, tier) -> iterable of case dicts {tree, q:[(a,b,rev)...], env?}
-    """
+    def gen(self, rng, tier, n):
+        g = X.Gen(rng)
+        return self.genf(g, rng, tier, n)
 
-    def __init__(self, prop, kind, oracle, dom_funcs, gen, n_quick, n_thorough, corpus=(),
-                 nontrivial=None, extra_checks=None, design_ref=""):
-        self.prop, self.kind, self.oracle, self.dom_funcs = prop, kind, oracle, dom_funcs
-        self.gen, self.n_quick, self.n_thorough = gen, n_quick, n_thorough
-        self.corpus = list(corpus)
-        self.nontrivial = nontrivial or (lambda c, obs: any(len(o) > 0 for o in obs if isinstance(o, list)))
-        self.extra_checks = extra_checks
-        self.corr = "corr_slice" if kind == "s" else "corr_pair"
-        self.case_type = "scase" if kind == "s" else "pcase"
-
-    # ---- implementation side
     def run_impl(self, case):
-        return [X.run_slice(case["tree"], a, b, rev, case.get("env")) for (a, b, rev) in case["q"]]
-
-    def coq_case(self, case, obs):
-        if self.kind == "s":
-            (a, b, rev), = case["q"]
-            return X.coq_scase(case["tree"], a, b, rev, obs[0], case.get("env"))
-        return X.coq_pcase(case["tree"], case["q"][0], obs[0], case["q"][1], obs[1], case.get("env"))
-
-    def evaluate(self, cases, tag="cases"):
-        """Returns per-case dict(obs, err, corr_ok, oracle_ok, in_dom)."""
-        obs_all = [self.run_impl(c) for c in cases]
-        good = [i for i, o in enumerate(obs_all) if all(isinstance(x, list) for x in o)]
-        terms = [self.coq_case(cases[i], obs_all[i]) for i in good]
-        funcs = [self.corr, self.oracle] + list(self.dom_funcs.values())
-        res = eval_cases(self.prop, HEADER, self.case_type, terms, funcs, tag=tag) if terms else {f: [] for f in funcs}
-        fail = {f: set(res[f]) for f in funcs}
-        out = []
-        pos = {gi: k for k, gi in enumerate(good)}
-        for i, c in enumerate(cases):
-            if i not in pos:
-                out.append(dict(obs=obs_all[i], err=True, corr_ok=False, oracle_ok=False, in_dom=True, sigs=[]))
-                continue
-            k = pos[i]
-            out.append(dict(obs=obs_all[i], err=False, corr_ok=k not in fail[self.corr],
-                            oracle_ok=k not in fail[self.oracle],
-                            in_dom=all(k not in fail[d] for d in self.dom_funcs.values()),
-                            sigs=[sg for sg, d in self.dom_funcs.items() if k in fail[d]]))
-        return out
-
-    # ---- classification
-    def is_new_violation(self, r, have_known):
-        """A failing oracle is attributed to a listed known finding only when the model
-        reproduces the implementation's output and the case carries a finding's signature."""
-        if r["err"]:
-            return True
-        if r["oracle_ok"]:
-            return False
-        if r["corr_ok"] and any(sg in have_known for sg in r["sigs"]):
-            return False
-        return True
-
-    def shrink(self, case, have_known, rounds=25):
-        cur = case
-        for _ in range(rounds):
-            cands = []
-            for t2 in X.shrink_tree(cur["tree"]):
-                cands.append(dict(cur, tree=t2))
-                if len(cands) >= 60:
-                    break
-            if not cands:
-                break
-            rs = self.evaluate(cands, tag="shrink")
-            nxt = None
-            for c, r in zip(cands, rs):
-                if self.is_new_violation(r, have_known):
-                    nxt = c
-                    break
-            if nxt is None:
-                break
-            cur = nxt
-        return cur
-
-    def model_outputs(self, case):
-        outs = []
-        for (a, b, rev) in case["q"]:
-            term = (f"slice {X.coq_env(case['tree'], case.get('env'))} {X.coq_expr(case['tree'])} "
-                    f"{X.coz(a)} {X.coz(b)} {X.cbool(rev)}")
-            outs.append(eval_term(self.prop, HEADER, term))
+        env = case.get("env")
+        t = case["tree"]
+        if self.kind == "f":
+            outs = [X.run_fetch(t, a, b, rev, env) for (a, b, rev) in case["q"]]
+        elif self.kind == "o":
+            outs = [X.run_overlapping(t, q[0], env) for q in case["q"]]
+        else:
+            outs = [X.run_slice(t, a, b, rev, env) for (a, b, rev) in case["q"]]
+        for o in outs:
+            if isinstance(o, dict):
+                return o
         return outs
 
-    def replay_payload(self, case, r, why):
-        return dict(kind="slice-case", why=why, expression=X.describe(case["tree"]), case=case,
-                    queries=case["q"], impl_output=r["obs"], model_output=self.model_outputs(case),
-                    oracle=self.oracle, correspondence_agrees=r["corr_ok"],
-                    in_known_finding_free_domain=r["in_dom"],
-                    how_to_replay=f"./check {self.prop} --replay <this file>")
+    def coq_case(self, case, obs):
+        t, env = case["tree"], case.get("env")
+        if self.kind == "f":
+            (a, b, rev), = case["q"]
+            return X.coq_scase(t, a, b, rev, obs[0], env).replace("(mkSC ", "(mkFC ", 1)
+        if self.kind == "o":
+            p = case["q"][0][0]
+            return f"(mkOC {X.coq_env(t, env)} {X.coq_expr(t)} {X.cz(p)} {X.coq_out(obs[0])})"
+        if self.kind == "s":
+            (a, b, rev), = case["q"]
+            return X.coq_scase(t, a, b, rev, obs[0], env)
+        return X.coq_pcase(t, case["q"][0], obs[0], case["q"][1], obs[1], env)
 
-    # ---- main
-    def run(self, tier, seed, replay=None):
-        rep = Report(self.prop, tier, seed)
-        known = load_known(self.prop)
-        have_known = {k["sig"] for k in known}
+    def shrink_candidates(self, case):
+        for t2 in X.shrink_tree(case["tree"]):
+            yield dict(case, tree=t2)
 
-        ok, out, build_s = make_coq()
-        pf = check_props_file(self.prop) if ok else dict(ok=False, theorems=[], axioms={}, printed=[], output=out)
-        forb = scan_forbidden()
-        obligations = len(pf.get("printed", []))
-        discharged = len([k for k in pf.get("axioms", {})]) if pf["ok"] else 0
-        proof_broken = (not ok) or (not pf["ok"]) or bool(forb)
+    def describe(self, case):
+        return f"{X.describe(case['tree'])}  queries={case['q']}"
 
-        if replay:
-            case = json.loads(open(replay).read())["case"]
-            r = self.evaluate([case], tag="replay")[0]
-            print(json.dumps(dict(impl=r["obs"], corr_ok=r["corr_ok"], oracle_ok=r["oracle_ok"],
-                                  in_dom=r["in_dom"], model=self.model_outputs(case)), default=str))
-            return 0 if (r["oracle_ok"] and r["corr_ok"]) else 1
-
-        rng = random.Random(seed)
-        n = self.n_thorough if tier == "thorough" else self.n_quick
-        cases = []
-        for wf in self.corpus:
-            cases.append(wf)
-        n_corpus = len(cases)
-        g = X.Gen(rng)
-        for c in self.gen(g, rng, tier, n):
-            cases.append(c)
-        t_eval = time.time()
-        try:
-            rs = self.evaluate(cases)
-        except RuntimeError as ex:
-            rep.coverage = dict(obligations=max(obligations, 1), discharged=0, checker_cmd="coqc",
-                                trusted_base=TRUSTED_BASE, explanation=str(ex)[-1500:])
-            rep.violation(dict(kind="broken-correspondence-build", detail=str(ex)[-3000:],
-                               theorem_or_correspondence="Harness/CoreChk.v evaluation of generated cases"),
-                          no_input=True)
-            return rep.finish()
-        eval_s = time.time() - t_eval
-
-        # known findings: replay each listed witness on the implementation
-        for kf in known:
-            w = json.loads((VERIF / kf["witness"]).read_text())
-            fam = self
-            r = fam.evaluate([w["case"]], tag="kf")[0]
-            if not r["oracle_ok"]:
-                rep.known(f"{kf['id']} {kf['text']}")
-
-        bad = [i for i, r in enumerate(rs) if self.is_new_violation(r, have_known)]
-        corr_bad = [i for i, r in enumerate(rs) if not r["corr_ok"]]
-        attributed = [i for i, r in enumerate(rs) if (not r["err"]) and (not r["oracle_ok"]) and i not in bad]
-
-        reported = 0
-        if bad:
-            # report up to 2 shrunk, distinct violations
-            seen = set()
-            for i in bad[:6]:
-                small = self.shrink(cases[i], have_known)
-                key = json.dumps(small, sort_keys=True, default=str)
-                if key in seen:
-                    continue
-                seen.add(key)
-                r = self.evaluate([small], tag="final")[0]
-                rep.violation(self.replay_payload(small, r, "property oracle fails on the implementation's output"))
-                reported += 1
-                if reported >= 2:
-                    break
-        elif corr_bad or proof_broken:
-            # correspondence or proof broken but no failing input among the generated cases:
-            # targeted search around the disagreeing cases
-            found = None
-            if corr_bad:
-                found = self.targeted_search(cases, corr_bad, rng, have_known)
-            if found is not None:
-                case, r = found
-                small = self.shrink(case, have_known)
-                r = self.evaluate([small], tag="final")[0]
-                rep.violation(self.replay_payload(small, r, "found by targeted search around a model/implementation disagreement"))
+    def model_output(self, case):
+        outs = []
+        t, env = case["tree"], case.get("env")
+        for q in case["q"]:
+            envs, es = X.coq_env(t, env), X.coq_expr(t)
+            if self.kind == "o":
+                term = f"overlapping {envs} {es} {X.cz(q[0])}"
             else:
-                detail = dict(kind="no-failing-input",
-                              theorem_or_correspondence=(
-                                  f"correspondence {self.corr} (model Model/Expr.v slice vs implementation)"
-                                  if corr_bad else f"proof obligations of Props/{self.prop}.v"),
-                              proof_build_ok=ok, props_file_ok=pf["ok"], forbidden=forb,
-                              build_output=(out if not ok else pf.get("output", ""))[-3000:])
-                if corr_bad:
-                    i = corr_bad[0]
-                    detail["first_disagreement"] = self.replay_payload(cases[i], rs[i], "model and implementation disagree")
-                    detail["case"] = cases[i]
-                rep.violation(detail, no_input=True)
+                a, b, rev = q
+                fn = "fetch" if self.kind == "f" else "slice"
+                term = f"{fn} {envs} {es} {X.coz(a)} {X.coz(b)} {X.cbool(rev)}"
+            outs.append(eval_term(self.prop, self.header, term))
+        return outs
 
-        # evidence
-        dist = Counter()
-        nontriv = set()
-        for c, r in zip(cases, rs):
-            for n_ in walk(c["tree"]):
-                dist["op_" + n_["op"]] += 1
-            dist["rev" if any(q[2] for q in c["q"]) else "fwd"] += 1
-            dist["open_window" if any(q[0] is None or q[1] is None for q in c["q"]) else "bounded_window"] += 1
-            if not r["err"] and self.nontrivial(c, r["obs"]):
-                nontriv.add(json.dumps([c["tree"], c["q"]], sort_keys=True, default=str))
-            if r["in_dom"]:
-                dist["in_exact_domain"] += 1
-            if any(len(l["evs"]) > 1 and overlapping(l["evs"]) for l in X.leaves_of(c["tree"])):
-                dist["has_overlapping_leaf"] += 1
-        samples = [dict(expression=X.describe(c["tree"]), queries=c["q"], impl_output=r["obs"])
-                   for c, r in list(zip(cases, rs))[n_corpus:n_corpus + 3]]
-        rep.coverage = dict(
-            obligations=max(obligations, 1), discharged=(discharged if not proof_broken else 0),
-            checker_cmd=f"make -C coq (full .vo) && coqc Props/{self.prop}.v  [Print Assumptions]; "
-                        f"coqc build/{self.prop}/cases_*.v (vm_compute)",
-            trusted_base=TRUSTED_BASE,
-            theorems=pf.get("theorems", []), axioms=pf.get("axioms", {}),
-            evaluations=len(cases), distinct_nontrivial=len(nontriv),
-            rule="random expression trees (one PRNG) over leaves with endpoints in {None,0..7}; "
-                 "a case is non-trivial when the implementation returned at least one interval; "
-                 "distinct = distinct (expression, queries)",
-            samples=samples, traces_validated_against_impl=len(cases),
-            disagreements_checked=len(corr_bad), correspondence_disagreements=len(corr_bad),
-            oracle_failures_attributed_to_known_findings=len(attributed),
-            distribution=dict(dist), corpus_cases=n_corpus, build_s=round(build_s, 1), eval_s=round(eval_s, 1),
-            explanation="theorems of Props/%s.v re-checked by coqc; model tied to /repo by running both on the "
-                        "cases above; oracle = executable spec of Spec/Sets.v applied to the implementation's output" % self.prop)
-        rep.assumptions = ["streams are finite lists; user-defined Timeline subclasses out of scope"]
-        return rep.finish()
+    def nontrivial(self, case, obs):
+        return any(len(o) > 0 for o in obs)
 
-    def targeted_search(self, cases, corr_bad, rng, have_known, budget=1500):
-        """Mutate the disagreeing cases (endpoint ±1, add nested/duplicate/touching/unbounded
-        events, move the window edges onto event edges, flip direction) looking for an input on
-        which the property oracle fails on the implementation."""
-        pool = []
-        for i in corr_bad[:20]:
-            base = cases[i]
-            for _ in range(max(1, budget // max(1, min(20, len(corr_bad))))):
-                pool.append(perturb(base, rng))
-        rs = self.evaluate(pool, tag="search")
-        for c, r in zip(pool, rs):
-            if self.is_new_violation(r, have_known):
-                return c, r
-        return None
+    def distribution(self, case, dist):
+        for n_ in walk(case["tree"]):
+            dist["op_" + n_["op"]] += 1
+        if self.kind != "o":
+            dist["reverse" if any(q[2] for q in case["q"]) else "forward"] += 1
+            dist["open_window" if any(q[0] is None or q[1] is None for q in case["q"]) else "bounded_window"] += 1
+        if any(len(l["evs"]) > 1 and overlapping(l["evs"]) for l in X.leaves_of(case["tree"])):
+            dist["has_overlapping_leaf"] += 1
+        if any(e[0] is None or e[1] is None for e in X.all_events(case["tree"])):
+            dist["has_unbounded_event"] += 1
+
+    def perturb(self, case, rng):
+        return perturb(case, rng)
 
 
 def walk(t):
@@ -276,7 +111,8 @@ def overlapping(evs):
 
 
 def perturb(case, rng):
-    import copy
+    """endpoint +-1, add a nested/duplicate/touching/unbounded event, move window edges onto
+    event edges"""
     c = copy.deepcopy(case)
     lvs = list(X.leaves_of(c["tree"]))
     ids = X.ids_of(c["tree"])
@@ -306,7 +142,7 @@ def perturb(case, rng):
                 if kind == "dup":
                     ns, ne = s, e
                 elif kind == "nest" and hi - lo >= 2:
-                    ns, ne = lo + 1, hi - 1 if hi - lo > 2 else hi
+                    ns, ne = lo + 1, (hi - 1 if hi - lo > 2 else hi)
                 elif kind == "touch":
                     ns, ne = hi, hi + rng.choice([1, 2])
                 else:
@@ -319,7 +155,11 @@ def perturb(case, rng):
         else:
             qs = []
             pts = [x for ev in X.all_events(c["tree"]) for x in ev[:2] if x is not None] or [0, 5]
-            for (a, b, rev) in c["q"]:
+            for q in c["q"]:
+                if len(q) == 1:
+                    qs.append((rng.choice(pts + [min(pts) - 1, max(pts) + 1]),))
+                    continue
+                a, b, rev = q
                 if rng.random() < 0.5:
                     a = rng.choice(pts + [None, min(pts) - 1])
                 if rng.random() < 0.5:
